@@ -569,14 +569,19 @@ pub mod panics {
     pub fn below_min<const NLEN: usize, const HCAP: usize>(isa: u8, prefilter: bool, at_least_needle: bool) {
         let nb: [u8; NLEN] = kani::any();
         let nz1 = [0u8; 1];
-        let n = crate::substr::nz(&nb, &nz1);
+        let n = place(crate::substr::nz(&nb, &nz1));
         let (i1, i2): (u8, u8) = (kani::any(), kani::any());
         let pair = match Pair::with_indices(n, i1, i2) {
             None => return,
             Some(p) => p,
         };
-        let (hb, hlen) = sym_hay::<HCAP>(0, HCAP);
-        let h = &hb.0[..hlen];
+        // `at_least_needle`: only haystacks at least as long as the needle, so
+        // that a finder that fails to panic necessarily goes on to load from
+        // in front of the haystack (used for C05: Kani cuts a path at the
+        // first out-of-bounds pointer computation, and the native guard-page
+        // replay must then be given an input that really reads).
+        let (hb, hlen) = sym_hay::<HCAP>(if at_least_needle { NLEN } else { 0 }, HCAP);
+        let h = place(&hb.0[..hlen]);
         if isa == 0 {
             let f = sse2::packedpair::Finder::with_pair(n, pair).unwrap();
             kani::assume(hlen < f.min_haystack_len());
